@@ -372,6 +372,7 @@ type fnTrans struct {
 	g     *gen
 	f     *ssa.Function
 	paths int
+	ipdom map[*ssa.BasicBlock]*ssa.BasicBlock
 }
 
 type env struct {
@@ -444,7 +445,15 @@ func (t *fnTrans) run() string {
 		fail("closure")
 	}
 	t.checkDAG()
-	body := t.block(f.Blocks[0], -1, e, 1)
+	for _, b := range f.Blocks {
+		for _, ins := range b.Instrs {
+			if _, isPanic := ins.(*ssa.Panic); isPanic {
+				fail("panic")
+			}
+		}
+	}
+	t.postDominators()
+	body := tidy(render(t.walk(f.Blocks[0], -1, e, nil, false), 1))
 	return fmt.Sprintf("def %s %s : %s :=\n%s\n", t.g.lname[f], strings.Join(params, " "), resT, body)
 }
 
@@ -465,7 +474,7 @@ func refs(v ssa.Value) int {
 }
 
 // bind gives an instruction's value a `let` name when it is compound and used more than once
-func (t *fnTrans) bind(instr ssa.Value, v val, e *env, depth int, out *strings.Builder) {
+func (t *fnTrans) bind(instr ssa.Value, v val, e *env, out *strings.Builder) {
 	needs := false
 	switch v.k {
 	case kInt, kBool:
@@ -475,7 +484,7 @@ func (t *fnTrans) bind(instr ssa.Value, v val, e *env, depth int, out *strings.B
 	}
 	if needs {
 		name := instr.Name()
-		fmt.Fprintf(out, "%slet %s := %s\n", ind(depth), name, v.e)
+		fmt.Fprintf(out, "let %s := %s\n", name, v.e)
 		nv := namedOfType(name, instr.Type())
 		if v.k == kBool {
 			nv.prop = ""
@@ -523,11 +532,46 @@ func (t *fnTrans) get(x ssa.Value, e *env) val {
 	return val{}
 }
 
-func (t *fnTrans) block(b *ssa.BasicBlock, predIdx int, e *env, depth int) string {
+// node is a piece of the translated control flow: some `let` lines followed by a return, by the arrival at the
+// join block the region is being translated towards, or by a two-way branch.
+type node struct {
+	lines  []string
+	ret    string   // result expression (the function returns here)
+	arrive *arrival // the region's join block is reached
+	cond   string
+	th, el *node
+}
+
+type arrival struct {
+	e    *env
+	pred int // predecessor slot of the join block
+}
+
+// walk executes block b symbolically (entered through predecessor slot predIdx; phisBound: the phis are already in e)
+// and everything after it up to `stop` (nil: up to the function's returns).
+func (t *fnTrans) walk(b *ssa.BasicBlock, predIdx int, e *env, stop *ssa.BasicBlock, phisBound bool) *node {
+	n := &node{}
 	var out strings.Builder
+	flush := func() {
+		for _, l := range strings.Split(strings.TrimRight(out.String(), "\n"), "\n") {
+			if l != "" {
+				n.lines = append(n.lines, l)
+			}
+		}
+		out.Reset()
+	}
+	finish := func(rest *node) *node {
+		flush()
+		n.lines = append(n.lines, rest.lines...)
+		n.ret, n.arrive, n.cond, n.th, n.el = rest.ret, rest.arrive, rest.cond, rest.th, rest.el
+		return n
+	}
 	for _, ins := range b.Instrs {
 		switch i := ins.(type) {
 		case *ssa.Phi:
+			if phisBound {
+				continue
+			}
 			if predIdx < 0 {
 				fail("phi in the entry block")
 			}
@@ -561,9 +605,9 @@ func (t *fnTrans) block(b *ssa.BasicBlock, predIdx int, e *env, depth int) strin
 				e.mem[p.alloc] = val{k: kStruct, lean: old.lean, fields: nf}
 			}
 		case *ssa.UnOp:
-			t.bind(i, t.unop(i, e), e, depth, &out)
+			t.bind(i, t.unop(i, e), e, &out)
 		case *ssa.BinOp:
-			t.bind(i, t.binop(i, e), e, depth, &out)
+			t.bind(i, t.binop(i, e), e, &out)
 		case *ssa.Field:
 			s := t.get(i.X, e)
 			if s.k != kStruct {
@@ -590,9 +634,9 @@ func (t *fnTrans) block(b *ssa.BasicBlock, predIdx int, e *env, depth int) strin
 				fail("type change to %s", i.Type().String())
 			}
 		case *ssa.Convert:
-			t.bind(i, t.convert(i, e), e, depth, &out)
+			t.bind(i, t.convert(i, e), e, &out)
 		case *ssa.Call:
-			t.bind(i, t.call(i, e), e, depth, &out)
+			t.bind(i, t.call(i, e), e, &out)
 		case *ssa.If:
 			c := t.get(i.Cond, e)
 			if c.k != kBool {
@@ -603,26 +647,43 @@ func (t *fnTrans) block(b *ssa.BasicBlock, predIdx int, e *env, depth int) strin
 				cond = c.e
 			}
 			if cond == "True" {
-				out.WriteString(t.succ(b, 0, e, depth))
-				return out.String()
+				return finish(t.edge(b, 0, e, stop))
 			}
 			if cond == "False" {
-				out.WriteString(t.succ(b, 1, e, depth))
-				return out.String()
+				return finish(t.edge(b, 1, e, stop))
 			}
 			t.paths++
 			if t.paths > maxPaths {
-				fail("too many paths (more than %d branches after duplication of join blocks)", maxPaths)
+				fail("too many paths (more than %d branches)", maxPaths)
 			}
-			e2 := e.clone()
-			th := t.succ(b, 0, e, depth+1)
-			el := t.succ(b, 1, e2, depth+1)
-			fmt.Fprintf(&out, "%sif %s then\n%s\n%selse\n%s", ind(depth), cond, th, ind(depth), el)
-			return out.String()
+			join := t.ipdom[b]
+			if join == stop {
+				e2 := e.clone()
+				flush()
+				n.cond, n.th, n.el = cond, t.edge(b, 0, e, stop), t.edge(b, 1, e2, stop)
+				return n
+			}
+			// the two branches meet again at `join` before the region ends: translate them as one `if` expression
+			// whose value is the tuple of everything that differs at the join (its phis, updated fields of locals)
+			sub := &node{cond: cond, th: t.edge(b, 0, e.clone(), join), el: t.edge(b, 1, e.clone(), join)}
+			e2, name := t.merge(sub, join, e)
+			rest := t.walk(join, -1, e2, stop, true)
+			if name != "" && len(rest.lines) == 0 && rest.th == nil && rest.arrive == nil && rest.ret == name {
+				// `let x := <branch>; x` is just the branch
+				flush()
+				n.cond, n.th, n.el = sub.cond, sub.th, sub.el
+				return n
+			}
+			if name != "" {
+				fmt.Fprintf(&out, "let %s :=\n%s\n", name, render(sub, 1))
+			}
+			return finish(rest)
 		case *ssa.Jump:
-			out.WriteString(t.succ(b, 0, e, depth))
-			return out.String()
+			return finish(t.edge(b, 0, e, stop))
 		case *ssa.Return:
+			if stop != nil {
+				fail("internal: return inside a joined region")
+			}
 			var parts []string
 			for _, r := range i.Results {
 				v := t.get(r, e)
@@ -636,12 +697,13 @@ func (t *fnTrans) block(b *ssa.BasicBlock, predIdx int, e *env, depth int) strin
 					fail("result of an unsupported kind")
 				}
 			}
+			flush()
 			if len(parts) == 1 {
-				fmt.Fprintf(&out, "%s%s", ind(depth), parts[0])
+				n.ret = parts[0]
 			} else {
-				fmt.Fprintf(&out, "%s(%s)", ind(depth), strings.Join(parts, ", "))
+				n.ret = "(" + strings.Join(parts, ", ") + ")"
 			}
-			return out.String()
+			return n
 		case *ssa.Panic:
 			fail("panic")
 		default:
@@ -649,11 +711,11 @@ func (t *fnTrans) block(b *ssa.BasicBlock, predIdx int, e *env, depth int) strin
 		}
 	}
 	fail("block without terminator")
-	return ""
+	return nil
 }
 
-// succ follows the k-th successor edge of b
-func (t *fnTrans) succ(b *ssa.BasicBlock, k int, e *env, depth int) string {
+// edge follows the k-th successor edge of b
+func (t *fnTrans) edge(b *ssa.BasicBlock, k int, e *env, stop *ssa.BasicBlock) *node {
 	s := b.Succs[k]
 	// which predecessor slot of s does this edge occupy (b may occur twice)
 	occ := 0
@@ -672,7 +734,298 @@ func (t *fnTrans) succ(b *ssa.BasicBlock, k int, e *env, depth int) string {
 			occ--
 		}
 	}
-	return t.block(s, idx, e, depth)
+	if s == stop {
+		return &node{arrive: &arrival{e: e, pred: idx}}
+	}
+	return t.walk(s, idx, e, stop, false)
+}
+
+func leaves(n *node, acc []*arrival) []*arrival {
+	if n.arrive != nil {
+		return append(acc, n.arrive)
+	}
+	if n.th != nil {
+		acc = leaves(n.th, acc)
+		acc = leaves(n.el, acc)
+	}
+	return acc
+}
+
+func letNames(n *node, acc map[string]bool) {
+	for _, l := range n.lines {
+		f := strings.Fields(l)
+		if len(f) > 1 && f[0] == "let" {
+			acc[f[1]] = true
+		}
+	}
+	if n.th != nil {
+		letNames(n.th, acc)
+		letNames(n.el, acc)
+	}
+}
+
+func mentions(expr string, names map[string]bool) bool {
+	tok := strings.FieldsFunc(expr, func(r rune) bool {
+		return !(r == '_' || r == '\'' || (r >= '0' && r <= '9') || (r >= 'a' && r <= 'z') || (r >= 'A' && r <= 'Z'))
+	})
+	for _, w := range tok {
+		if names[w] {
+			return true
+		}
+	}
+	return false
+}
+
+func valText(v val) string {
+	if v.k == kStruct {
+		w, _ := whole(v)
+		return w
+	}
+	return v.e
+}
+
+// merge binds, after the branch `sub` whose paths all arrive at `join`, everything that differs between the arrivals:
+// the phis of `join` and the fields of local structs that a branch has updated.  It returns the environment in which
+// `join` is executed (envB = the environment at the branch instruction).
+func (t *fnTrans) merge(sub *node, join *ssa.BasicBlock, envB *env) (*env, string) {
+	ls := leaves(sub, nil)
+	inner := map[string]bool{}
+	letNames(sub, inner)
+	type comp struct {
+		name  string
+		typ   types.Type
+		exprs []string
+		phi   *ssa.Phi
+		alloc *ssa.Alloc
+		fidx  int
+	}
+	var comps []comp
+	e2 := envB.clone()
+	same := func(xs []string) bool {
+		for _, x := range xs[1:] {
+			if x != xs[0] {
+				return false
+			}
+		}
+		return true
+	}
+	for _, ins := range join.Instrs {
+		phi, ok := ins.(*ssa.Phi)
+		if !ok {
+			break
+		}
+		var xs []string
+		var first val
+		for k, l := range ls {
+			v := t.get(phi.Edges[l.pred], l.e)
+			if v.k == kPtr || v.k == kTuple {
+				fail("a pointer or tuple flows through a join")
+			}
+			if k == 0 {
+				first = v
+			}
+			xs = append(xs, valText(v))
+		}
+		if same(xs) && !mentions(xs[0], inner) {
+			e2.vals[phi] = first
+			continue
+		}
+		comps = append(comps, comp{name: phi.Name(), typ: phi.Type(), exprs: xs, phi: phi})
+	}
+	// local variables, in the order of their allocation
+	var allocs []*ssa.Alloc
+	for _, b := range t.f.Blocks {
+		for _, ins := range b.Instrs {
+			if a, ok := ins.(*ssa.Alloc); ok {
+				if _, live := envB.mem[a]; live {
+					allocs = append(allocs, a)
+				}
+			}
+		}
+	}
+	for _, a := range allocs {
+		base := envB.mem[a]
+		elem := a.Type().Underlying().(*types.Pointer).Elem()
+		if base.k == kStruct {
+			_, st, _ := structInfo(elem)
+			for fi := range base.fields {
+				var xs []string
+				for _, l := range ls {
+					xs = append(xs, l.e.mem[a].fields[fi].e)
+				}
+				if same(xs) && xs[0] == base.fields[fi].e {
+					continue
+				}
+				comps = append(comps, comp{name: a.Name() + "_" + st.Field(fi).Name(), typ: st.Field(fi).Type(), exprs: xs, alloc: a, fidx: fi})
+			}
+		} else {
+			var xs []string
+			for _, l := range ls {
+				xs = append(xs, l.e.mem[a].e)
+			}
+			if same(xs) && xs[0] == base.e {
+				continue
+			}
+			comps = append(comps, comp{name: a.Name() + "_v", typ: elem, exprs: xs, alloc: a, fidx: -1})
+		}
+	}
+	if len(comps) == 0 {
+		return e2, ""
+	}
+	// the leaves of `sub`, in order, yield the tuple of the components
+	k := 0
+	var fill func(n *node)
+	fill = func(n *node) {
+		if n.arrive != nil {
+			var parts []string
+			for _, c := range comps {
+				parts = append(parts, c.exprs[k])
+			}
+			k++
+			n.arrive = nil
+			if len(parts) == 1 {
+				n.ret = parts[0]
+			} else {
+				n.ret = "(" + strings.Join(parts, ", ") + ")"
+			}
+			return
+		}
+		fill(n.th)
+		fill(n.el)
+	}
+	fill(sub)
+	name := comps[0].name
+	if len(comps) > 1 {
+		name = fmt.Sprintf("j%d", join.Index)
+	}
+	for ci, c := range comps {
+		ref := name
+		if len(comps) > 1 {
+			ref = name + tupleProj(ci, len(comps))
+		}
+		nv := namedOfType(ref, c.typ)
+		switch {
+		case c.phi != nil:
+			e2.vals[c.phi] = nv
+		case c.fidx < 0:
+			e2.mem[c.alloc] = nv
+		default:
+			old := e2.mem[c.alloc]
+			nf := append([]val(nil), old.fields...)
+			nf[c.fidx] = nv
+			e2.mem[c.alloc] = val{k: kStruct, lean: old.lean, fields: nf}
+		}
+	}
+	return e2, name
+}
+
+// render prints a node; multi-line `let` values are already indented relative to their own first line
+func render(n *node, depth int) string {
+	var sb strings.Builder
+	pad := ind(depth)
+	for _, l := range n.lines {
+		for _, ll := range strings.Split(l, "\n") {
+			sb.WriteString(pad + ll + "\n")
+		}
+	}
+	switch {
+	case n.th != nil:
+		fmt.Fprintf(&sb, "%sif %s then\n%s\n%selse\n%s", pad, n.cond, render(n.th, depth+1), pad, render(n.el, depth+1))
+	default:
+		sb.WriteString(pad + n.ret)
+	}
+	return sb.String()
+}
+
+// tidy rewrites `let x := <multi-line value>` immediately followed by the tail expression `x` into the value itself
+func tidy(text string) string {
+	lines := strings.Split(text, "\n")
+	indentOf := func(l string) int { return len(l) - len(strings.TrimLeft(l, " ")) }
+	for changed := true; changed; {
+		changed = false
+		for i, l := range lines {
+			tl := strings.TrimLeft(l, " ")
+			if !strings.HasPrefix(tl, "let ") || !strings.HasSuffix(tl, " :=") {
+				continue
+			}
+			name := strings.TrimSuffix(strings.TrimPrefix(tl, "let "), " :=")
+			in := indentOf(l)
+			j := i + 1
+			for j < len(lines) && indentOf(lines[j]) > in {
+				j++
+			}
+			if j >= len(lines) || lines[j] != strings.Repeat(" ", in)+name {
+				continue
+			}
+			var out []string
+			out = append(out, lines[:i]...)
+			for _, b := range lines[i+1 : j] {
+				out = append(out, b[2:])
+			}
+			out = append(out, lines[j+1:]...)
+			lines = out
+			changed = true
+			break
+		}
+	}
+	return strings.Join(lines, "\n")
+}
+
+// postDominators: ipdom[b] = the nearest block that lies on every path from b to a return (nil: there is none)
+func (t *fnTrans) postDominators() {
+	blocks := t.f.Blocks
+	n := len(blocks)
+	// reverse topological order of the DAG
+	var order []*ssa.BasicBlock
+	seen := map[*ssa.BasicBlock]bool{}
+	var dfs func(b *ssa.BasicBlock)
+	dfs = func(b *ssa.BasicBlock) {
+		seen[b] = true
+		for _, s := range b.Succs {
+			if !seen[s] {
+				dfs(s)
+			}
+		}
+		order = append(order, b) // successors first
+	}
+	dfs(blocks[0])
+	pdom := map[*ssa.BasicBlock]map[*ssa.BasicBlock]bool{}
+	for _, b := range order {
+		set := map[*ssa.BasicBlock]bool{}
+		if len(b.Succs) > 0 {
+			first := true
+			for _, s := range b.Succs {
+				if first {
+					for k := range pdom[s] {
+						set[k] = true
+					}
+					first = false
+				} else {
+					for k := range set {
+						if !pdom[s][k] {
+							delete(set, k)
+						}
+					}
+				}
+			}
+		}
+		set[b] = true
+		pdom[b] = set
+	}
+	t.ipdom = map[*ssa.BasicBlock]*ssa.BasicBlock{}
+	for _, b := range order {
+		var best *ssa.BasicBlock
+		for _, c := range blocks { // deterministic order
+			if c == b || !pdom[b][c] {
+				continue
+			}
+			if best == nil || len(pdom[c]) > len(pdom[best]) {
+				best = c
+			}
+		}
+		t.ipdom[b] = best
+	}
+	_ = n
 }
 
 func (t *fnTrans) unop(i *ssa.UnOp, e *env) val {
